@@ -48,11 +48,15 @@ LevelEnd   == IsEvent("levelend") /\ Judge(LevelEndOK(E, st.count)) /\ st' = StI
 
 Uncompact  == Stateless("uncompact", UncompactOK(E))
 
+Compact8   == Stateless("compact8", Compact8OK(E))
+Compact10  == Stateless("compact10", Compact10OK(E))
+CompactPair == Stateless("compactpair", CompactPairOK(E))
+
 TraceNext ==
   \/ Reset \/ Codec \/ DecodeEv \/ HexFmtEv \/ HexParseEv
   \/ SortedBlock \/ AncPair \/ RunBlock
   \/ Children \/ ParentComp \/ ChildComp \/ LevelBlock \/ LevelEnd
-  \/ Uncompact
+  \/ Uncompact \/ Compact8 \/ Compact10 \/ CompactPair
 
 TraceSpec == TraceInit /\ [][TraceNext]_vars
 
